@@ -436,10 +436,7 @@ def t32_rows():
                  (f["P"] == 1 and f["M"] == 1) or (f["P"] == 1 and pc_mid_it(c)), sem=sem_pop, group=G))
     R.append(Row("PushT2", T32, "1110100100101101-M-rrrrrrrrrrrrr",
                  operands=lambda f, c: {"registers": (f["M"] << 14) | f["r"], "unaligned_allowed": False},
-                 unpredictable=lambda f, c: bitcount((f["M"] << 14) | f["r"]) < 2, sem=sem_push, group=G,
-                 # the manual says UnalignedAllowed = FALSE for T2, the repository's test asserts True; the two only differ
-                 # for an unaligned SP, which is UNPREDICTABLE in Thumb state: not compared
-                 nocompare=("unaligned_allowed",)))
+                 unpredictable=lambda f, c: bitcount((f["M"] << 14) | f["r"]) < 2, sem=sem_push, group=G))
     R.append(Row("PopThumbT3", T32, "1111100001011101tttt101100000100", operands=one_reg,
                  unpredictable=lambda f, c: f["t"] == 13 or (f["t"] == 15 and pc_mid_it(c)), sem=sem_pop, group=G))
     R.append(Row("PushT3", T32, "1111100001001101tttt110100000100", operands=one_reg,
